@@ -22,4 +22,34 @@ PROPS = {
                         "the session-level invariant 'every emitted message is WF under representable handler data' is checked "
                         "on generated cases (oracle), not yet proved for all handler programs.",
              technique="Lean 4 proof (round-trip of encode/strict-parse, induction on message lists) + differential correspondence"),
+    "C17": P("Pw.Props.C17",
+             ["Pw.Props.C17.C17_fields", "Pw.Props.C17.C17_wellformed", "Pw.Props.C17.C17_codes_nodup", "Pw.Props.C17.C17_nil",
+              "Pw.Props.C17.getCode_outer", "Pw.Props.C17.getSev_outer", "Pw.Props.C17.getSource_outer", "Pw.Props.C17.text_spec"],
+             [("errors", 3000, 200000)], ["Consts"],
+             design_ref="§7 C17",
+             level_text="Lean theorem C17_fields: for EVERY error term (any nesting depth, order, repetition of the six decorators and of "
+                        "%w-wrapping) with NUL-free texts, the ErrorResponse body of the model parses under the strict field grammar to "
+                        "exactly the specification's field list (outermost value of each decoration, defaults ERROR / XXUUU, source line "
+                        "as decimal text, each field at most once); C17_nil for the nil error. The model's Flatten/Get*/builder are tied to "
+                        "errors/*.go and error.go by the differential campaign over random decorator trees (depth <= 16) and by pinned "
+                        "error-field bytes; the oracle parses the implementation's ErrorResponse strictly and compares it with the "
+                        "specification computed from the scripted error term.",
+             level_note="Trusted: Lean kernel; harness (scripted ParseFn builds the Go error value from the same term); fmt.Errorf(%w) is "
+                        "modelled as prefix/suffix wrapping with Unwrap; codes.Uncategorized etc. pinned by Conformance.Consts.",
+             technique="Lean 4 proof by induction on the error term + differential correspondence"),
+    "C20": P("Pw.Props.C20",
+             ["Pw.Props.C20.C20_bounded", "Pw.Props.C20.C20_positional", "Pw.Props.C20.C20_anonymous",
+              "Pw.Props.C20.C20_unspecified", "Pw.Props.C20.C20_work", "Pw.Props.C20.C20_describe"],
+             [("params", 6000, 400000), ("paramsd", 1500, 60000)], ["Params", "Consts"],
+             design_ref="§7 C20",
+             level_text="Lean theorems over ALL query strings: the model of ParseParameters is a total structurally recursive function "
+                        "(no panic outcome), its result length is min(highest $n index, 65535) for positional queries and "
+                        "min(#markers, 65535) for ?-queries, never exceeds 65535, all entries are OID 0, the scan yields at most one "
+                        "marker per byte, and the ParameterDescription built from it announces exactly that length. The scanner model of "
+                        "the regular expression and the growth loop are tied to options.go by calling the real function (child process, "
+                        "panics kill the child and are reported) on generated strings incl. indexes 0, gaps, repeats, 65535/65536, "
+                        "2^63-1, 2^63, 30 digits, and by the pinned regexp literal; a second campaign checks the Describe count end to end.",
+             level_note="Trusted: Lean kernel; Go regexp (RE2) for the one pinned literal and strconv.Atoi saturation are modelled, not "
+                        "verified; harness.",
+             technique="Lean 4 proof (induction over the marker list, omega) + differential correspondence on the real function"),
 }
